@@ -2,6 +2,7 @@ package props
 
 import (
 	"strings"
+	"time"
 
 	"verif/harness/sim"
 )
@@ -223,7 +224,7 @@ func genC15(r *sim.Rand, tier string) *sim.Program {
 		for n := r.PickInt(1, 1, 2, 3); n > 0; n-- {
 			vi := r.Intn(len(plan))
 			victim := plan[vi]
-			switch r.Intn(20) {
+			switch r.Intn(21) {
 			case 0: // already expired when issued
 				victim.nbH, victim.naH = -r.Range(48, 96), -r.Range(1, 24)
 			case 1: // not yet valid
@@ -259,6 +260,23 @@ func genC15(r *sim.Rand, tier string) *sim.Program {
 				victim.alg = r.Intn(10)
 			case 18: // extended key usage
 				victim.eku = r.Range(1, 5)
+			case 19: // window ends in the boundary years of the two ASN.1 time types (UTCTime covers 1950..2049)
+				base := time.Date(2000, 1, 1, 0, 0, 0, 0, time.UTC)
+				hrs := func(y int, m time.Month, d, h int) int {
+					return int(time.Date(y, m, d, h, 0, 0, 0, time.UTC).Sub(base) / time.Hour)
+				}
+				switch r.Intn(5) {
+				case 0: // expired long ago, last day in 1950
+					victim.nbH, victim.naH = hrs(1949, 7, 1, 0), hrs(1950, 6, 30, 0)
+				case 1: // first UTCTime instant
+					victim.nbH, victim.naH = hrs(1950, 1, 1, 0), 24*3650
+				case 2: // last UTCTime year / first GeneralizedTime year
+					victim.nbH, victim.naH = -r.Range(2, 48), hrs(2049, 12, 31, 23)
+				case 3:
+					victim.nbH, victim.naH = -r.Range(2, 48), hrs(2050, 1, 1, 0)
+				default:
+					victim.nbH, victim.naH = hrs(1949, 12, 31, 23), hrs(2050, 6, 30, 0)
+				}
 			default: // inverted window: never valid
 				victim.nbH, victim.naH = r.Range(2, 9), r.Range(-3, 1)
 			}
